@@ -150,4 +150,271 @@ theorem assemble_parts (b : Bytes) (base P size : Nat) (tm id : Bytes) (parts : 
     have hoff : base * sectorSize + s * P + P = base * sectorSize + (s + 1) * P := by rw [Nat.add_mul]; omega
     rw [hsz, slice_add, hoff, List.append_assoc]
 
+
+/-- **one file, whatever its size**: the reader assembles from the record(s) written for it the identifier
+    and exactly the `size` bytes that start at the file's first sector -/
+theorem assemble_fileRecs (b : Bytes) (f : FileRef) (joliet : Bool) (F : Nat) (rest : List DirRec) :
+    assemble b (fileRecs f joliet F ++ rest) [] =
+      (makeIdentifier f.name joliet, slice b ((f.rLBA + F) * sectorSize) f.size) :: assemble b rest [] := by
+  have hpart : multiExtentPart = 2 ^ 32 - 2048 := by decide
+  have hmax : maxPart = 2 ^ 32 - 1 := by decide
+  by_cases hbig : f.size > maxPart
+  · -- several extents
+    have hP : 0 < multiExtentPart := by rw [hpart]; decide
+    have htot := Ps3.Props.C07.multi_extent_total f.size multiExtentPart hP
+    generalize hparts : f.size / multiExtentPart + (if f.size % multiExtentPart > 0 then 1 else 0) = parts at htot
+    have hpos : 0 < f.size := by omega
+    have hlo := htot.2 hpos
+    have hparts1 : 1 ≤ parts := by
+      rcases Nat.eq_zero_or_pos parts with h0 | h0
+      · rw [h0] at htot; have := htot.1; omega
+      · exact h0
+    have hrecs : fileRecs f joliet F = (List.range' 0 (parts - 1 + 1)).map (fun i =>
+        if i == parts - 1 then (⟨f.rLBA + F + i * sectors multiExtentPart, f.size - i * multiExtentPart, recTime f.mtime, 0, makeIdentifier f.name joliet⟩ : DirRec)
+        else ⟨f.rLBA + F + i * sectors multiExtentPart, multiExtentPart, recTime f.mtime, Gen.fs_dirFlagMultiExtent, makeIdentifier f.name joliet⟩) := by
+      unfold fileRecs
+      simp only [hbig, if_true]
+      rw [hparts, List.range_eq_range', Nat.sub_add_cancel hparts1]
+      apply List.map_congr_left
+      intro i _
+      have : f.rLBA + i * sectors multiExtentPart + F = f.rLBA + F + i * sectors multiExtentPart := by omega
+      rw [this]
+    rw [hrecs]
+    have := assemble_parts b (f.rLBA + F) multiExtentPart f.size (recTime f.mtime) (makeIdentifier f.name joliet) parts _ hP
+      (fun i _ => rfl) sectors_part (by have := hlo.2; omega) rest (parts - 1) 0 [] (by omega)
+    simpa using this
+  · have hrecs : fileRecs f joliet F = [⟨f.rLBA + F, f.size, recTime f.mtime, 0, makeIdentifier f.name joliet⟩] := by
+      unfold fileRecs; simp [hbig]
+    rw [hrecs]
+    simp only [List.cons_append, List.nil_append]
+    rw [assemble_last b _ _ _ (by simp [isDirRec]) (by simp [isMulti])]
+    simp [extentBytes]
+
+theorem fileRecs_not_dir (f : FileRef) (joliet : Bool) (F : Nat) : ∀ r ∈ fileRecs f joliet F, isDirRec r = false := by
+  intro r hr
+  unfold fileRecs at hr
+  dsimp only at hr
+  split at hr
+  · rw [List.mem_map] at hr
+    obtain ⟨i, _, rfl⟩ := hr
+    generalize f.size / multiExtentPart + (if f.size % multiExtentPart > 0 then 1 else 0) = parts
+    by_cases hl : (i == parts - 1) = true
+    · simp only [hl, if_true]; simp [isDirRec]
+    · simp only [hl, Bool.false_eq_true, if_false]; exact flag_multi.1
+  · simp only [List.mem_singleton] at hr; subst hr; simp [isDirRec]
+
+theorem assemble_childRecs (b : Bytes) (L : Layout) (joliet : Bool) (l : List Nat) :
+    assemble b (l.filterMap (fun j => L.items[j]?.map (childRec L joliet j))) [] = [] := by
+  induction l with
+  | nil => simp [assemble]
+  | cons j rest ih =>
+    simp only [List.filterMap_cons]
+    cases hj : L.items[j]? with
+    | none => simpa [hj] using ih
+    | some c =>
+      simp only [Option.map_some]
+      rw [assemble_dir b _ _ _ (by simp [isDirRec, childRec])]
+      exact ih
+
+/-- the files a reader assembles from the entries of a directory of a generated image -/
+theorem assemble_dir_entries (b : Bytes) (L : Layout) (joliet : Bool) (it : DirItem) :
+    assemble b (fileRecsAll L joliet it ++ childRecs L joliet it) [] =
+      it.files.map (fun f => (makeIdentifier f.name joliet, slice b ((f.rLBA + L.filesLBA) * sectorSize) f.size)) := by
+  unfold fileRecsAll childRecs
+  generalize it.files = fs
+  induction fs with
+  | nil => simpa using assemble_childRecs b L joliet _
+  | cons f rest ih =>
+    simp only [List.map_cons, List.flatten_cons, List.append_assoc]
+    rw [assemble_fileRecs, ih]
+
+
+/-! ### what the scan knows about each file and each directory it recorded -/
+
+open Ps3.Props.C07 in
+/-- every file record of a directory names an entry of that directory which `stat` says is that very file -/
+def FilesStat (w : World) (it : DirItem) : Prop :=
+  ∀ f ∈ it.files, ∃ q, w.stat (it.path ++ [f.name]) = some (q, .file f.ino)
+
+theorem scanEntries_stat (w : World) (path : Path) (names : List Name) :
+    ∀ (files : List FileRef) (stack : List Path) (s : Nat) (files' : List FileRef) (stack' : List Path) (s' : Nat),
+    scanEntries w path names files stack s = some (files', stack', s') →
+      (∀ f ∈ files, ∃ q, w.stat (path ++ [f.name]) = some (q, .file f.ino)) →
+      ∀ f ∈ files', ∃ q, w.stat (path ++ [f.name]) = some (q, .file f.ino) := by
+  induction names with
+  | nil =>
+    intro files stack s files' stack' s' h h0
+    simp [scanEntries] at h
+    obtain ⟨rfl, _, _⟩ := h
+    exact h0
+  | cons n rest ih =>
+    intro files stack s files' stack' s' h h0
+    unfold scanEntries at h
+    split at h
+    · cases h
+    · exact ih _ _ _ _ _ _ h h0
+    · rename_i q i hst
+      split at h
+      · cases h
+      · refine ih _ _ _ _ _ _ h ?_
+        intro f hf
+        rcases List.mem_append.mp hf with hf | hf
+        · exact h0 f hf
+        · simp only [List.mem_singleton] at hf
+          subst hf
+          exact ⟨q, hst⟩
+    · cases h
+
+open Ps3.Props.C07 in
+/-- the scan invariant: every recorded directory is reachable from the root through directory entries,
+    and every file record was obtained by `stat` of an entry of its directory -/
+theorem scan_sound (w : World) (root : Path) (fuel : Nat) :
+    ∀ (stack : List Path) (acc : List DirItem) (s : Nat) (items : List DirItem) (e : Nat),
+    scan w fuel stack acc s = some (items, e) →
+      (∀ p ∈ stack, Reach w root p) → (∀ it ∈ acc, Reach w root it.path ∧ FilesStat w it ∧ it.name = it.path.getLast?.getD []) →
+      ∀ it ∈ items, Reach w root it.path ∧ FilesStat w it ∧ it.name = it.path.getLast?.getD [] := by
+  induction fuel with
+  | zero =>
+    intro stack acc s items e h _ hacc
+    unfold scan at h
+    split at h
+    · cases h; exact hacc
+    · cases h
+    · omega
+  | succ fuel ih =>
+    intro stack acc s items e h hstk hacc
+    unfold scan at h
+    split at h
+    · cases h; exact hacc
+    · omega
+    · rename_i stack acc s _ _ _ _ fuel' hfu _
+      have hf : fuel' = fuel := by omega
+      subst hf
+      split at h
+      · cases h; exact hacc
+      · rename_i path hlast
+        split at h
+        · rename_i q mt hst
+          split at h
+          · cases h
+          · rename_i files stack' s' hse
+            obtain ⟨_, hstack', _⟩ := scanEntries_partition w path (dirNames w q) [] _ _ _ _ _ hse
+            have hsplit : stack = stack.dropLast ++ [path] := split_last stack path hlast
+            have hpath : Reach w root path := hstk path (by rw [hsplit]; simp)
+            refine ih _ _ _ _ _ h ?_ ?_
+            · intro p hp
+              rw [hstack'] at hp
+              rcases List.mem_append.mp hp with hp | hp
+              · exact hstk p (by rw [hsplit]; exact List.mem_append_left _ hp)
+              · obtain ⟨n, hn, rfl⟩ := List.mem_map.mp hp
+                rw [List.mem_filter] at hn
+                exact Reach.child path q mt n hpath hst hn.1 hn.2
+            · intro it hit
+              rcases List.mem_append.mp hit with hit | hit
+              · exact hacc it hit
+              · simp only [List.mem_singleton] at hit
+                subst hit
+                exact ⟨hpath, scanEntries_stat w path _ _ _ _ _ _ _ hse (by simp), rfl⟩
+        · cases h
+
+
+open Ps3.Props.C07 in
+/-- the first directory of every image is the root itself -/
+theorem scan_head (w : World) (root : Path) (items : List DirItem) (e : Nat)
+    (h : scan w scanFuel [root] [] 0 = some (items, e)) : ∃ it, items[0]? = some it ∧ it.path = root := by
+  have hf : scanFuel = 99999 + 1 := rfl
+  rw [hf] at h
+  unfold scan at h
+  split at h
+  · rename_i hlast; simp at hlast
+  · rename_i path hlast
+    have hp : path = root := by simpa using hlast.symm
+    subst hp
+    split at h
+    · rename_i q mt hst
+      split at h
+      · cases h
+      · rename_i files _ _ _
+        obtain ⟨⟨tail, htail⟩, _, _⟩ := scan_visits w _ _ _ _ _ _ h
+        refine ⟨⟨path, path.getLast?.getD [], mt, files⟩, ?_, rfl⟩
+        rw [htail]; simp
+    · cases h
+
+open Ps3.Props.C07 in
+theorem reach_extends (w : World) (root p : Path) (h : Reach w root p) : ∃ rel, p = root ++ rel := by
+  induction h with
+  | root => exact ⟨[], by simp⟩
+  | child p q mt n _ _ _ _ ih =>
+    obtain ⟨rel, rfl⟩ := ih
+    exact ⟨rel ++ [n], by simp⟩
+
+open Ps3.Props.C07 in
+/-- everything `layoutOf` establishes about the directory list, in one place -/
+structure TreeFacts (w : World) (root : Path) (L : Layout) : Prop where
+  head : ∃ it, L.items[0]? = some it ∧ it.path = root
+  rootLen : L.rootLen = root.length
+  complete : ∀ p, Reach w root p → p ∈ L.items.map (·.path)
+  itemOk : ∀ it ∈ L.items, ItemOk w L.items it
+  sound : ∀ it ∈ L.items, Reach w root it.path ∧ FilesStat w it ∧ it.name = it.path.getLast?.getD []
+
+open Ps3.Props.C07 in
+theorem layoutOf_tree (w : World) (root : Path) (ps3 : Bool) (L : Layout) (h : layoutOf w root ps3 = some L) :
+    TreeFacts w root L := by
+  have h := (layoutOf_some h).1
+  unfold layoutRaw at h
+  split at h
+  · split at h
+    · cases h
+    · split at h
+      · cases h
+      · rename_i items fsec hscan
+        cases h
+        obtain ⟨hc, hok⟩ := scan_complete w root items fsec hscan
+        exact ⟨scan_head w root items fsec hscan, rfl, hc, hok,
+          scan_sound w root scanFuel [root] [] 0 items fsec hscan (by intro p hp; simp at hp; subst hp; exact Reach.root)
+            (by intro it hit; cases hit)⟩
+  · cases h
+
+
+/-! ### the bytes of every file -/
+
+open Ps3.Proof.BuildWF in
+theorem runOk_sizes (w : World) : ∀ (fs : List FileRef) (s e : Nat), runOk w s fs e →
+    ∀ f ∈ fs, (cfOf w f.ino).size = f.size := by
+  intro fs
+  induction fs with
+  | nil => intro _ _ _ f hf; cases hf
+  | cons g rest ih =>
+    intro s e h f hf
+    obtain ⟨_, ⟨i, hi, hsz⟩, hrest⟩ := h
+    rcases List.mem_cons.mp hf with rfl | hf
+    · simp [cfOf, hi, hsz]
+    · exact ih _ _ hrest f hf
+
+open Ps3.Proof.BuildWF in
+/-- **the extent of every file of every directory holds exactly the file's bytes** — empty files,
+    sizes that are not a multiple of the sector size, files of more than 4 GiB alike -/
+theorem file_bytes (w : World) (root : Path) (ps3 : Bool) (clk : Clock) (filler : Bytes) (L : Layout)
+    (hL : layoutOf w root ps3 = some L) (it : DirItem) (hit : it ∈ L.items) (f : FileRef) (hf : f ∈ it.files) :
+    slice (flat (imageOf L ps3 clk filler) (cfOf w)) ((f.rLBA + L.filesLBA) * sectorSize) f.size = (cfOf w f.ino).all := by
+  have F := layoutOf_facts w root ps3 L hL
+  obtain ⟨e, hrun, _⟩ := F.run
+  have hall : f ∈ allFiles L.items := by
+    unfold allFiles
+    rw [List.mem_flatten]
+    exact ⟨it.files, List.mem_map.mpr ⟨it, hit, rfl⟩, hf⟩
+  have hsz := runOk_sizes w _ _ _ hrun f hall
+  by_cases h0 : f.size = 0
+  · have hlen : (cfOf w f.ino).all.length = 0 := by rw [Proof.Content.all_length, hsz, h0]
+    rw [h0, Proof.Slice.slice_zero_len]
+    exact (List.eq_nil_of_length_eq_zero hlen).symm
+  · have himg : build w root ps3 clk filler = some (imageOf L ps3 clk filler) := by simp [build, hL]
+    have hwf := build_wf w root ps3 clk filler _ himg
+    have hmem : (⟨f.ino, f.size, f.rLBA + L.filesLBA⟩ : FileExt) ∈ (imageOf L ps3 clk filler).files := by
+      show _ ∈ L.files
+      unfold Layout.files
+      rw [List.mem_map]
+      exact ⟨f, List.mem_filter.mpr ⟨hall, by simpa using h0⟩, rfl⟩
+    exact (Ps3.Props.C07.extent_content _ _ hwf ⟨f.ino, f.size, f.rLBA + L.filesLBA⟩ hmem).1
+
 end Ps3.Proof.IsoTree
